@@ -94,6 +94,12 @@ fn check_damage(w: &World, pre: &format::RawArchive, cx: &Cx, f: &str, d: Dmg, n
     let post = format::scan(&w.arch);
     let ids = ops::list_band_ids(&w.arch, &None);
     no_panic(&ids, "versions", f, d)?;
+    // `conserve versions` proper (src/show.rs): plain, and with start time, duration and
+    // tree size, which opens every band, reads its tail and walks its stitched index
+    for (detail, newest_first) in [(false, false), (true, false), (true, true)] {
+        let v = ops::show_versions(&w.arch, &None, detail, newest_first);
+        no_panic(&v, "show_versions", f, d)?;
+    }
     if class == FileClass::Header {
         // every operation must fail cleanly
         for (what, r) in [
